@@ -89,6 +89,8 @@ fn kinds() -> Vec<Kind> {
     v.push(Kind::Bool(true)); v.push(Kind::Bool(false));
     for e in [0x00u8, 0x07, 0x0F, 0x17, 0x1D, 0x24, 0x2A, 0x2B] { v.push(Kind::Err(e)); }
     v.push(Kind::Fmla(FRes::Num(2.5))); v.push(Kind::Fmla(FRes::Str("res".into(), false))); v.push(Kind::Fmla(FRes::Str("r\u{e9}s".into(), true)));
+    // the anchor cell of a shared formula / array formula / data table: another record between FORMULA and STRING
+    for t in [0x04BCu16, 0x0221, 0x0236] { v.push(Kind::Fmla(FRes::StrVia("via".into(), false, t))); }
     v.push(Kind::Fmla(FRes::Bool(true))); v.push(Kind::Fmla(FRes::Err(0x07))); v.push(Kind::Fmla(FRes::Err(0x2A))); v.push(Kind::Fmla(FRes::EmptyStr));
     v
 }
@@ -144,7 +146,7 @@ fn build(ch: &mut Chooser, anchor: (u16, u16), positions: &[(u16, u16)]) -> (Vec
             Kind::Bool(b) => { exp.insert(pos, Exp::Val(Data::Bool(b))); cells.push(BCell::BoolErr { r, c, xf: 0, val: b as u8, is_err: false }); }
             Kind::Err(e) => { exp.insert(pos, Exp::Val(Data::Error(err_of(e)))); cells.push(BCell::BoolErr { r, c, xf: 0, val: e, is_err: true }); }
             Kind::Fmla(res) => {
-                let e = match &res { FRes::Num(v) => Data::Float(*v), FRes::Str(s, _) => Data::String(s.clone()), FRes::Bool(b) => Data::Bool(*b), FRes::Err(e) => Data::Error(err_of(*e)), FRes::EmptyStr => Data::String(String::new()) };
+                let e = match &res { FRes::Num(v) => Data::Float(*v), FRes::Str(s, _) | FRes::StrVia(s, _, _) => Data::String(s.clone()), FRes::Bool(b) => Data::Bool(*b), FRes::Err(e) => Data::Error(err_of(*e)), FRes::EmptyStr => Data::String(String::new()) };
                 exp.insert(pos, Exp::Val(e));
                 cells.push(BCell::Formula { r, c, xf: 0, res, rgce: vec![0x1E, 1, 0] });
             }
